@@ -309,7 +309,9 @@ public:
 
         if (!is_a<Integer>(*self.get_exp()) || !is_a<Add>(*_base)) {
             if (neq(*_base, *self.get_base())) {
-                Add::dict_add_term(d_, multiply, pow(_base, self.get_exp()));
+                // pow() may return a Number or a Mul with a numeric coefficient,
+                // neither of which is a valid key of d_
+                _coef_dict_add_term(multiply, pow(_base, self.get_exp()));
             } else {
                 Add::dict_add_term(d_, multiply, self.rcp_from_this());
             }
